@@ -6,6 +6,7 @@ are solver-chosen; after each operation a deep structural snapshot of result / t
 counts) is compared with the one taken before."""
 import copy
 import pickle
+import numpy as np
 from engine.runner import run_sym, replay_sym
 from checks.javert_common import build_result, full_snapshot, snap, KINDS
 
@@ -30,7 +31,7 @@ ASSUMPTIONS = ['cell values are concrete distinct numbers, optionally (solver-ch
                'plot representation = plot templates only (no matplotlib rendering)',
                'pickle / deepcopy act on concrete values (C boundary)',
                'the baseline snapshot is taken after one call of the cheap observers (bool, oracles, counts), so memoisation attributes may exist']
-OUTSIDE = ['matplotlib rendering', 'sequences longer than the bound', 'user-defined representers']
+OUTSIDE = ['matplotlib rendering of the plots of the statistical results (the drawing job covers one user-made plot template per plot type)', 'sequences longer than the bound', 'user-defined representers']
 EXPLANATION = ('bounded symbolic execution (symrun + z3: solver-chosen result kinds, failing patterns and operation sequences) of the real '
                'representation / formatting / counting code; deep snapshot before == after each operation')
 
@@ -100,6 +101,94 @@ def make_harness(kind, shape, nds, named, nops, few_verbs=False):
     return harness
 
 
+HISTORY_PAIRS = [(1e-5, 4e-5), (4e-5, 1e-5), (0.01, 0.01003), (0.05, 0.0500001), (1e-3, 1.4e-3), (0.01, 0.0100000001)]
+
+
+def history_harness(ex):
+    """the outcome of an evaluation is a function of the test alone, not of what was evaluated earlier in the process: another test
+    with a NEARBY significance level (and the same degrees of freedom) is evaluated and represented first, then the test under
+    observation, whose per-bin decisions are compared with the two-sided critical value taken directly from scipy (concrete
+    float-level job: 120 bins whose t statistics run from 0.05 to 6 in steps of 0.05)"""
+    import scipy.stats as sst
+    from valjean.eponine.dataset import Dataset
+    from valjean.gavroche.stat_tests.student import TestStudent
+    from valjean.gavroche.stat_tests.bonferroni import TestBonferroni, TestHolmBonferroni
+    from valjean.javert.representation import Representation, FullTableRepresenter
+    from valjean.javert.verbosity import Verbosity
+    a0, a1 = HISTORY_PAIRS[ex.choice(len(HISTORY_PAIRS), 'alpha-pair')]
+    ndf = [None, 20, 3][ex.choice(3, 'ndf')]
+    tv = np.arange(1, 121) * 0.05
+    err = np.full_like(tv, np.sqrt(0.5))
+
+    def student(alpha, name):
+        return TestStudent(Dataset(tv.copy(), err.copy(), name='ds1'), Dataset(np.zeros_like(tv), err.copy(), name='ds2'),
+                           name=name, alpha=alpha, ndf=ndf)
+    first = ex.choice(3, 'evaluated-before')
+    other = student(a1, 'earlier')
+    if first == 1:
+        other = TestBonferroni(test=other, name='earlier-bonf', alpha=a1)
+    elif first == 2:
+        other = TestHolmBonferroni(test=other, name='earlier-holm', alpha=a1)
+    Representation(FullTableRepresenter(), verbosity=Verbosity.FULL_DETAILS)(other.evaluate())
+    res = student(a0, 'observed').evaluate()
+    thr = abs(sst.norm.ppf(a0 / 2)) if ndf is None else abs(sst.t.ppf(a0 / 2, ndf))
+    clear = np.abs(tv - thr) > 1e-6
+    got = np.asarray(res.oracles()).reshape(-1)
+    ex.check(bool(np.all(got[clear] == (tv < thr)[clear])), 'evaluation-does-not-depend-on-what-was-evaluated-before')
+    ex.check(bool(res) == bool(np.all((tv < thr)[clear])) or not bool(np.all(clear)), 'evaluation-does-not-depend-on-what-was-evaluated-before')
+    again = student(a0, 'observed').evaluate()
+    ex.check(full_snapshot(again) == full_snapshot(res), 'evaluating-twice-gives-identical-results')
+
+
+def draw_harness(ex):
+    """DRAWING the plots of a result with matplotlib (what the report writer does) leaves the live templates -- for a user-made
+    result: the data of the test itself -- unchanged.  One plot template per plot type ('1D', 'bar', 'barstack', 'pie', '2D'), two or
+    three series each, integer or float values (solver-chosen), drawn once or twice, after a representation or not"""
+    import matplotlib
+    matplotlib.use('Agg')
+    from matplotlib import pyplot as plt
+    from valjean.javert.test_external import TestExternal
+    from valjean.javert.templates import PlotTemplate, SubPlotElements, CurveElements, TextTemplate
+    from valjean.javert.representation import Representation, FullRepresenter
+    from valjean.javert.verbosity import Verbosity
+    from valjean.javert.mpl import MplPlot
+    ptype = ['1D', 'bar', 'barstack', 'pie', '2D'][ex.choice(5, 'plot-type')]
+    ncurves = 1 if ptype in ('pie', '2D') else 2 + ex.choice(2, 'third-series')
+    dtype = [float, int][ex.choice(2, 'integer-values')]
+    if ptype == '2D':
+        curves = [CurveElements(values=np.array([[1, 3], [2, 0]], dtype=dtype), bins=[np.array([0., 1., 2.]), np.array([0., 1., 2.])], legend='c0')]
+        axn = ('x', 'y', 'z')
+    else:
+        cats = [np.array(['spam', 'egg', 'bacon', 'ham'])] if ptype != '1D' else [np.array([0., 1., 2., 3., 4.])]
+        base = [[1, 3, 2, 0], [2, 3, 4, 3], [2, 3, 4, 3]]
+        curves = [CurveElements(values=np.array(base[i], dtype=dtype), bins=[b.copy() for b in cats], legend=f'c{i}') for i in range(ncurves)]
+        axn = ('x', 'y')
+    plot = PlotTemplate(subplots=[SubPlotElements(curves=curves, axnames=axn, ptype=ptype)])
+    res = TestExternal(TextTemplate('some text'), plot, name='t-draw', success=True).evaluate()
+    base_snap = full_snapshot(res)
+    raw = [(c.values.dtype.str, c.values.tobytes(), tuple(b.tobytes() for b in c.bins)) for c in curves]
+    if ex.choice(2, 'represented-first'):
+        Representation(FullRepresenter(), verbosity=Verbosity.FULL_DETAILS)(res)
+    for _ in range(1 + ex.choice(2, 'drawn-twice')):
+        try:
+            fig, _axs = MplPlot(plot).draw()
+            plt.close(fig)
+        except Exception as e:      # noqa -- a plot that cannot be drawn is not the subject (C20 covers the figures of a report)
+            ex.note('draw-raised', type(e).__name__)
+            plt.close('all')
+    ex.check(full_snapshot(res) == base_snap and
+             raw == [(c.values.dtype.str, c.values.tobytes(), tuple(b.tobytes() for b in c.bins)) for c in curves],
+             'draw:leaves-verdict-statistics-and-inputs-unchanged')
+
+
+def _job_draw(timeout_ms, seed=0):
+    return run_sym('x', draw_harness, timeout_ms=timeout_ms, seed=seed, require_checks=['draw:leaves-verdict-statistics-and-inputs-unchanged'])
+
+
+def _job_history(timeout_ms, seed=0):
+    return run_sym('x', history_harness, timeout_ms=timeout_ms, seed=seed, require_checks=['evaluation-does-not-depend-on-what-was-evaluated-before'])
+
+
 def _job(kind, shape, nds, named, nops, timeout_ms, seed=0, few_verbs=False):
     return run_sym('x', make_harness(kind, shape, nds, named, nops, few_verbs), timeout_ms=timeout_ms, seed=seed, max_paths=3000000)
 
@@ -124,10 +213,16 @@ def jobs(tier):
             # sequences of three operations, lowest / highest verbosity only
             out.append((f'{kind}-1d-n1-named-ops3-fewverbs', _job,
                         dict(kind=kind, shape='1d', nds=1, named=True, nops=3, timeout_ms=20000, few_verbs=True)))
+    out.append(('history-student', _job_history, dict(timeout_ms=20000)))
+    out.append(('draw-plots', _job_draw, dict(timeout_ms=20000)))
     return out
 
 
 def replay(rp):
+    if rp['job'] == 'draw-plots':
+        return replay_sym(draw_harness, rp['inputs'])
+    if rp['job'] == 'history-student':
+        return replay_sym(history_harness, rp['inputs'])
     for j in jobs('thorough') + jobs('quick'):
         if j[0] == rp['job']:
             p = j[2]
